@@ -72,6 +72,16 @@ def inner_build(spec, env):
     return Never()
 
 
+class EqError(Exception):
+    """A value-style exception (a dataclass exception, an API error carrying a status): equal when the fields are."""
+
+    def __eq__(self, other):
+        return type(other) is EqError and self.args == other.args
+
+    def __hash__(self):
+        return hash(self.args)
+
+
 class InnerBroke(Exception):
     pass
 
@@ -342,6 +352,8 @@ def x_sync(ctx, case):
                 except Exception:
                     infos.append(sys.exc_info())
             exc = MultipleExceptions(*infos)
+        elif kind == "eqerr":
+            exc = EqError(503, "unavailable")      # a new object every time - and equal to every other of its kind
         else:
             exc = {"fail": AssertionError("F"), "error": ValueError("E"), "skip": unittest.SkipTest("S")}[kind]
         if deferred:
@@ -370,7 +382,7 @@ def x_sync(ctx, case):
 
             def setUp(self):
                 super().setUp()
-                if stage == "cleanup":
+                if stage == "cleanup" or case.get("also_cleanup"):
                     self.addCleanup(behave, self, deferred)
                 if stage == "setUp":
                     return behave(self, deferred)
@@ -498,6 +510,13 @@ def run(ctx):
                 for rep in range(15 if ctx.quick else 60):
                     ctx.execute("sync", {"stage": stage, "kind": kind, "rep": rep,
                                          "shape": ["plain", "subclass", "list_callback"][rep % 3]})
+    for stage in ("setUp", "test", "tearDown"):
+        for shape in ("plain", "subclass", "list_callback"):
+            if ctx.mine():
+                n += 1
+                # the stage and a clean-up fail with two distinct exceptions that compare equal: two errors, two tracebacks
+                ctx.execute("sync", {"stage": stage, "kind": "eqerr", "also_cleanup": True, "shape": shape})
+                ctx.execute("sync", {"stage": stage, "kind": "error", "also_cleanup": True, "shape": shape})
     ctx.note_space("SynchronousDeferredRunTest twins: 4 stages x 5 behaviours x {Deferred, a Deferred subclass, a "
                    "DeferredList failed by its own callback}", n)
     ctx.notes["random_cases"] = True
